@@ -1061,7 +1061,11 @@ Section Sound.
         eapply sound_ign; apply IHe. apply (B1 p Hp). destruct (snd p); simpl in He; [|tauto].
         destruct He as [<-|[]]; auto. }
       apply sound_isolated; [|apply IHn; auto].
-      apply new_frame_ok; auto. apply (plain_ok (args_s :: kwargs_s :: map fst bound)).
+      assert (Hnf : frame_ok (new_frame (GNs (plain (args_s :: kwargs_s :: map fst bound))) []
+                                        (ctmpl fr) [include_s; block_s])).
+      { apply new_frame_ok; auto. apply (plain_ok (args_s :: kwargs_s :: map fst bound)). }
+      destruct Hnf as (A1 & A2 & A3 & A4 & A5 & A6).
+      unfold frame_ok, on_head_frame_macros; simpl. repeat split; auto.
     - (* NInclude *)
       eapply sound_bind; [apply sound_load_m|]. intros nodes Hg.
       assert (Hc : Forall (NCov name) nodes) by (eapply NCov_partial; eauto; reflexivity).
@@ -1087,8 +1091,7 @@ Section Sound.
       destruct var as [v|]; [|apply sound_isolated; auto].
       apply sound_seq; [apply Hev; simpl; auto|].
       eapply sound_bind; [apply sound_pop|]. intros k _.
-      destruct (loop && negb (N.eqb k 0)); apply sound_isolated; auto.
-      apply sound_repeatM; auto.
+      destruct (loop && negb (N.eqb k 0)); [apply sound_repeatM|]; apply sound_isolated; auto.
     - (* NExtends *)
       eapply sound_bind; [apply sound_chain; auto; intros; discriminate|]. intros base Hb.
       apply sound_seq; [apply Hrt; auto|].
